@@ -8,6 +8,7 @@ CONSTANTS
   WithCrash = FALSE
   HeadInBatch = TRUE
   CrashInHeadWindow = TRUE
+  WithTamper = FALSE
   SpendTrimCandidate = TRUE
 VIEW view
 INVARIANTS CommitmentEqualsContent
